@@ -27,6 +27,8 @@ RULE = (
     "of the node holding it; no-op calls return the receiver itself.  A call may instead raise EngineError or "
     "ColumnError.  Non-trivial = a restricted expression or a transfer/backtrack was involved; distinct = (operation "
     "kind, restriction, flags, outcome, base skeleton tail)."
+    "  The restricted call may be nested in (or wrap) functions that declare support everywhere, and its portable "
+    "look-alike (an expression that compares equal) may be requested first in every engine. "
 )
 ASSUMPTIONS = [
     "well-formedness is judged node-locally by vmon/monitors/structure.py against the documented invariants",
